@@ -1,2 +1,5 @@
 import CffVerif.Sched.Model
 import CffVerif.Sched.Replay
+import CffVerif.Sched.Basic
+import CffVerif.Sched.Simple
+import CffVerif.Properties
